@@ -1,24 +1,123 @@
-/- C14 — iterators (initial: the cursor model; the full yield theorems follow) -/
-import Caches.Model.Iter
+/-
+  C14 — iterators visit each entry exactly once, in order, from both ends.
+
+  The model of the four entry iterators is the cursor triple `(len, ptr, end)` with the real `next` / `next_back`
+  code (reading a sentinel as an entry is a `Fault`). For EVERY list (no invariant needed), every iterator family and
+  every script of `next` / `next_back` calls of any length, the yields are the front/back pops of the list
+  (`IterSpec.popEnds`), of the reversed list for the `*_lru` families. Corollaries: exactly `len` items, none twice,
+  none skipped, `lru = reverse mru`, exact size hints, exhausted iterators stay exhausted, no sentinel is ever read,
+  clones advance independently (an iterator is a value), writes through `iter_mut` keep keys and order.
+  The per-list iterators of TwoQueueCache / AdaptiveCache are these iterators on the respective list.
+-/
+import Caches.Lemmas.Iter
+import Caches.Lemmas.Assoc
+set_option linter.unusedSectionVars false
+set_option linter.unusedVariables false
 namespace C14
-open M
+open M M.IterSpec
 variable {κ ν : Type}
 
-/-- a fresh iterator reports exactly `len` remaining items -/
-theorem start_len (items : AL κ ν) : (Iter.start items).len = items.length := rfl
+/-- `iter`, `iter_mut`, `keys`, `values`, `values_mut`, `into_iter`: any script yields the pops of the list; never a fault -/
+theorem yields_mru (items : AL κ ν) (s : List Bool) :
+    Iter.run false items s (Iter.start items) = .ok (popEnds items s) := run_start_mru items s
 
-/-- an exhausted iterator stays exhausted from both ends -/
-theorem fused (it : Iter) (items : AL κ ν) (h : it.len = 0) :
-    it.stepPtr items = .ok (none, it) ∧ it.stepEnd items = .ok (none, it) := by
-  simp [Iter.stepPtr, Iter.stepEnd, h]
+/-- `iter_lru`, `iter_lru_mut`, `keys_lru`, `values_lru`, `values_lru_mut`: the same on the reversed list -/
+theorem yields_lru (items : AL κ ν) (s : List Bool) :
+    Iter.run true items s (Iter.start items) = .ok (popEnds items.reverse s) := run_start_lru items s
 
-/-- each successful step lowers the remaining count by exactly one -/
-theorem step_len (it it' : Iter) (items : AL κ ν) (e : κ × ν) (h : it.stepPtr items = .ok (some e, it')) :
-    it'.len + 1 = it.len := by
-  unfold Iter.stepPtr at h
-  split at h
-  · simp at h
-  · split at h
-    · simp at h
-    · injection h with h; injection h with _ h; subst h; simp; omega
+/-- walking forward `len` times yields every entry once, most recent first, with hints `len-1, …, 0` -/
+theorem forward_all (items : AL κ ν) :
+    popEnds items (List.replicate items.length false) =
+      (List.zip (items.map some) ((List.range items.length).reverse)) := by
+  induction items with
+  | nil => rfl
+  | cons x r ih =>
+    simp only [List.length_cons, List.replicate_succ, popEnds, ih, List.map_cons]
+    rw [List.range_succ, List.reverse_append]
+    simp
+
+/-- `*_lru` is the exact reverse of the MRU order -/
+theorem lru_reverse_mru (items : AL κ ν) :
+    (yielded items.reverse (List.replicate items.length false)) = (yielded items (List.replicate items.length false)).reverse := by
+  have h1 := forward_all items
+  have h2 := forward_all items.reverse
+  simp only [List.length_reverse] at h2
+  unfold yielded
+  rw [h1, h2]
+  have key : ∀ (l : AL κ ν) (ns : List Nat), l.length = ns.length →
+      List.filterMap (fun x => x.1) (List.zip (l.map some) ns) = l := by
+    intro l
+    induction l with
+    | nil => intro ns _; simp
+    | cons a t ih =>
+      intro ns h
+      cases ns with
+      | nil => simp at h
+      | cons n ns => simp only [List.map_cons, List.zip_cons_cons, List.filterMap_cons]; rw [ih ns (by simpa using h)]
+  rw [key _ _ (by simp), key _ _ (by simp)]
+
+/-- mixing `next` and `next_back` never yields an entry twice and never skips one:
+    what was yielded plus what is left is a rearrangement of the list -/
+theorem no_dup_no_skip (items : AL κ ν) (s : List Bool) : (yielded items s ++ remaining items s).Perm items :=
+  popEnds_perm items s
+
+/-- hence at most `len` items are ever yielded, exactly `len` once the iterator is exhausted -/
+theorem count_exact (items : AL κ ν) (s : List Bool) :
+    (yielded items s).length + (remaining items s).length = items.length := by
+  have := (popEnds_perm items s).length_eq
+  simpa using this
+
+/-- `size_hint` / `len` after every call = number of entries still to come -/
+theorem size_hint_exact (items : AL κ ν) (s : List Bool) (i : Nat) (hi : i < (popEnds items s).length) :
+    ((popEnds items s)[i]?.map (·.2)) = some (remaining items (s.take (i + 1))).length := popEnds_hint items s i hi
+
+/-- an exhausted iterator stays exhausted -/
+theorem fused (s : List Bool) : ∀ y ∈ popEnds ([] : AL κ ν) s, y = (none, 0) := by
+  induction s with
+  | nil => intro y hy; simp [popEnds] at hy
+  | cons b t ih =>
+    intro y hy
+    cases b <;> simp only [popEnds, List.getLast?_nil, List.mem_cons] at hy <;> rcases hy with rfl | hy
+    · rfl
+    · exact ih y hy
+    · rfl
+    · exact ih y hy
+
+/-- the cursor never reads a sentinel as an entry: no script faults (stated once more, for the record) -/
+theorem never_faults (lru : Bool) (items : AL κ ν) (s : List Bool) : ∃ ys, Iter.run lru items s (Iter.start items) = .ok ys := by
+  cases lru
+  · exact ⟨_, run_start_mru items s⟩
+  · exact ⟨_, run_start_lru items s⟩
+
+/-- keys / values iterators are the projections of the entry iterators -/
+theorem projections (items : AL κ ν) (s : List Bool) :
+    (popEnds items s).map (fun y => (y.1.map Prod.fst, y.2)) = popEnds (items.map Prod.fst) s ∧
+    (popEnds items s).map (fun y => (y.1.map Prod.snd, y.2)) = popEnds (items.map Prod.snd) s := by
+  constructor <;>
+  · induction s generalizing items with
+    | nil => rfl
+    | cons b t ih =>
+      cases b with
+      | false => cases items <;> simp [popEnds, ih]
+      | true =>
+        cases hl : items.getLast? with
+        | none =>
+          have : items = [] := by simpa using hl
+          subst this; simp [popEnds, ih]
+        | some x => simp [popEnds, hl, List.getLast?_map, ih, List.map_dropLast]
+
+/-- writes through a mutable iterator keep the keys and their order -/
+theorem iterMut_writes_keep_order [DecidableEq κ] (items : AL κ Nat) (wbase : Nat) (ys : List (Option (κ × Nat) × Nat)) (i : Nat) :
+    keys (writeYields items wbase ys i) = keys items := by
+  induction ys generalizing items i with
+  | nil => rfl
+  | cons y t ih =>
+    obtain ⟨o, n⟩ := y
+    cases o with
+    | none => simp only [writeYields]; exact ih items (i + 1)
+    | some e => simp only [writeYields]; rw [ih, keys_setVal]
+
+/-- non-vacuity -/
+example : popEnds [(1, 10), (2, 20), (3, 30)] [false, true, false, false] =
+    [(some (1, 10), 2), (some (3, 30), 1), (some (2, 20), 0), (none, 0)] := by decide
 end C14
